@@ -844,6 +844,39 @@ func (w *World) hookReplay(fs *storage.VerifStore, op uint8, lsn, pg uint64, cel
 
 // ---- session-side operations ----
 
+// BiasHeader raises the row-id and LSN counters in the header of a database
+// that was just created and is not open (file and shadow alike).
+func (w *World) BiasHeader(db string, key uint32, lsn uint64) error {
+	path := filepath.Join("data", strings.ToLower(db), "tbl")
+	sh := w.files[path]
+	if sh == nil || len(sh.data) < 28 {
+		return fmt.Errorf("harness: no header to bias for %s", db)
+	}
+	hdr := append([]byte(nil), sh.data[:28]...)
+	if key > 0 {
+		cur := uint32(hdr[0]) | uint32(hdr[1])<<8 | uint32(hdr[2])<<16 | uint32(hdr[3])<<24
+		if key > cur {
+			hdr[0], hdr[1], hdr[2], hdr[3] = byte(key), byte(key>>8), byte(key>>16), byte(key>>24)
+		}
+	}
+	if lsn > 0 {
+		for i := 0; i < 8; i++ {
+			hdr[20+i] = byte(lsn >> (8 * uint(i)))
+		}
+	}
+	f, err := os.OpenFile(path, os.O_WRONLY, 0644)
+	if err != nil {
+		return err
+	}
+	defer f.Close()
+	if _, err := f.WriteAt(hdr, 0); err != nil {
+		return err
+	}
+	copy(sh.data, hdr)
+	w.count("header_biased")
+	return nil
+}
+
 // BeginStmt / EndStmt bracket one statement of the timeline.
 func (w *World) BeginStmt(idx int, kind string, dirs []Directive) {
 	w.stmtIdx = idx
